@@ -57,6 +57,7 @@ type Result struct {
 	Fetches   []sarama.VerifSimFetchInfo
 	StartAt   map[int32]int64 // resolved start offset
 	Reached   bool            // every expected message arrived before the close
+	Trace     []string        // feeder hook events: "cf <kind> <partition> <value>"
 }
 
 func Gen(seed uint64, focus string) *Scenario {
@@ -201,6 +202,17 @@ func Run(sc *Scenario) *Result {
 	for k := 0; k < sc.Icepts; k++ {
 		cfg.Consumer.Interceptors = append(cfg.Consumer.Interceptors, &cicept{k: k, panic: k == sc.PanicIcept})
 	}
+	sinkMu.Lock()
+	defer sinkMu.Unlock()
+	var evMu sync.Mutex
+	sarama.VerifSinkKV = func(kind string, key string, a, b int64) {
+		if strings.HasPrefix(kind, "cf.") {
+			evMu.Lock()
+			res.Trace = append(res.Trace, fmt.Sprintf("cf %s %d %d", kind[3:], a, b))
+			evMu.Unlock()
+		}
+	}
+	defer func() { sarama.VerifSinkKV = nil }()
 	c, err := sarama.NewConsumer(sim.Addrs(), cfg)
 	if err != nil {
 		res.NewErr = err.Error()
@@ -323,6 +335,8 @@ func Run(sc *Scenario) *Result {
 	res.Fetches = sim.Fetches()
 	return res
 }
+
+var sinkMu sync.Mutex
 
 type Fail struct{ Sig, Detail string }
 
